@@ -32,6 +32,7 @@ class LoopFrame(StackFrame):
         # stay parameters (and keep hiding globals) inside the loop body.
         self.params = parent.params
         self._loop_var = {}
+        self.eval_depth = None
 
     def get_loop_var(self, index):
         return self._loop_var.get(index, None)
@@ -117,6 +118,11 @@ class CallStack:
     def exit_loop(self) -> None:
         self._top = self._top.parent
 
-    def unwind_loops(self) -> None:
+    def unwind_loops(self):
+        # Returns the evaluation-stack depth recorded by the outermost loop
+        # that was abandoned, or None if there was none.
+        eval_depth = None
         while isinstance(self._top, LoopFrame):
+            eval_depth = self._top.eval_depth
             self._top = self._top.parent
+        return eval_depth
